@@ -248,7 +248,25 @@ fn c14() {
 #[cfg(not(feature = "wide"))]
 fn c14() { println!("C14 needs --features wide"); }
 
+
+fn c08() {
+    let dir = tempfile::tempdir().unwrap();
+    let p = dir.path().join("a.mv2");
+    let mut m = Memvid::create(&p).unwrap();
+    let mut o = PutOptions::default(); o.timestamp = Some(1000); o.uri = Some("mv2://parent".into());
+    m.put_bytes_with_options(b"parent doc", o).unwrap(); m.commit().unwrap();
+    let mut o = PutOptions::default(); o.timestamp = Some(1001); o.uri = Some("mv2://child".into());
+    o.parent_id = Some(0); o.role = FrameRole::ExtractedImage; o.source_path = Some("/tmp/orig.png".into());
+    m.put_bytes_with_options(b"child image bytes", o).unwrap(); m.commit().unwrap();
+    let before = m.frame_by_uri("mv2://child").unwrap();
+    let mut u = PutOptions::default(); u.title = Some("new title".into());
+    m.update_frame(before.id, None, u, None).unwrap(); m.commit().unwrap();
+    let after = m.frame_by_uri("mv2://child").unwrap();
+    println!("C08 before id {} parent {:?} role {:?} source_path {:?}", before.id, before.parent_id, before.role, before.source_path);
+    println!("C08 after  id {} parent {:?} role {:?} source_path {:?} title {:?}", after.id, after.parent_id, after.role, after.source_path, after.title);
+}
+
 fn main() {
     let which = std::env::args().nth(1).unwrap_or_default();
-    match which.as_str() { "c05"=>c05(), "c26"=>c26(), "c20"=>c20(), "c32"=>c32(), "c11"=>c11(), "c17"=>c17(), "c29"=>c29(), "c14"=>c14(), "c09"=>c09(), "c18"=>c18(), "c23"=>c23(), "c16"=>c16(), "c40"=>c40(), "c24"=>c24(), "c15"=>c15(), "c22"=>c22(), _=>{ c05(); c26(); c20(); c11(); c17(); } }
+    match which.as_str() { "c05"=>c05(), "c26"=>c26(), "c20"=>c20(), "c32"=>c32(), "c11"=>c11(), "c17"=>c17(), "c08"=>c08(), "c29"=>c29(), "c14"=>c14(), "c09"=>c09(), "c18"=>c18(), "c23"=>c23(), "c16"=>c16(), "c40"=>c40(), "c24"=>c24(), "c15"=>c15(), "c22"=>c22(), _=>{ c05(); c26(); c20(); c11(); c17(); } }
 }
